@@ -180,9 +180,15 @@ class CallNode(Node):
             },
         }
 
+        defaults: dict[str, Expression] = {}
+
         for name, expr in args.args.items():
             if expr is None:
                 namespace[name] = context.env.undefined(name, token=self.token)
+            elif name in macro.args and expr is macro.args[name].value:
+                # A default is part of the macro. It is evaluated in the macro's
+                # own scope, below, not in the scope of the caller.
+                defaults[name] = expr
             else:
                 namespace[name] = expr.evaluate(context)
 
@@ -192,6 +198,9 @@ class CallNode(Node):
             disabled_tags=self.disabled_tags,
             carry_loop_iterations=True,
         )
+
+        for name, expr in defaults.items():
+            namespace[name] = expr.evaluate(macro_context)
 
         try:
             return macro.block.render(macro_context, buffer)
@@ -228,9 +237,15 @@ class CallNode(Node):
             },
         }
 
+        defaults: dict[str, Expression] = {}
+
         for name, expr in args.args.items():
             if expr is None:
                 namespace[name] = context.env.undefined(name, token=self.token)
+            elif name in macro.args and expr is macro.args[name].value:
+                # A default is part of the macro. It is evaluated in the macro's
+                # own scope, below, not in the scope of the caller.
+                defaults[name] = expr
             else:
                 namespace[name] = await expr.evaluate_async(context)
 
@@ -240,6 +255,9 @@ class CallNode(Node):
             disabled_tags=self.disabled_tags,
             carry_loop_iterations=True,
         )
+
+        for name, expr in defaults.items():
+            namespace[name] = await expr.evaluate_async(macro_context)
 
         try:
             return await macro.block.render_async(macro_context, buffer)
